@@ -483,9 +483,16 @@ func c10prop(r *simkit.Run) {
 			w.equalReached = true
 		}
 	}
+	// the operation mix is drawn per run: "episodes" are long quiet stretches (an outlier appears, is pushed
+	// down over many back-off intervals, recovers, weights converge back) with little else going on
+	opMix := []string{"req", "req", "req", "req", "req+backoff", "req+backoff", "advance", "ratings", "ratings", "admin"}
+	if rapid.IntRange(0, 2).Draw(rt, "episodes") == 0 {
+		opMix = []string{"req+backoff", "req+backoff", "req+backoff", "req+backoff", "req+backoff", "req+backoff", "req+backoff", "req", "req", "req", "advance", "ratings"}
+		r.Probe("episode-run")
+	}
 	nops := rapid.IntRange(10, deep(200, 800)).Draw(rt, "ops")
 	for i := 0; i < nops; i++ {
-		switch rapid.SampledFrom([]string{"req", "req", "req", "req", "req+backoff", "req+backoff", "advance", "ratings", "ratings", "admin"}).Draw(rt, "op") {
+		switch rapid.SampledFrom(opMix).Draw(rt, "op") {
 		case "req":
 			w.request(nil)
 		case "req+backoff":
